@@ -669,6 +669,55 @@ theorem trusted_never_ignored (db : Db) (ig : IgnoreDb) (di : Bool) (now : Int) 
     checkIgnoredIn db ig di now h recipient chan = .ok false := by
   simp [checkIgnoredIn, ignoredGlobal, hl, ht]
 
+/-! ## the flood guard -/
+
+/-- with the flood guard on, a command is dispatched only if the caller is not ignored and either
+stayed within the rate or is trusted -/
+theorem flood_dispatch_requires (db : Db) (ig : IgnoreDb) (di : Bool) (now : Int) (h : Str)
+    (on : Bool) (queued maximum : Nat) (bm : Str) (pun : Int) (ig' : IgnoreDb)
+    (hd : ownerDoPrivmsgFlood db ig di now h on queued maximum bm pun = (.dispatch, ig')) :
+    checkIgnored db ig di now h = .ok false ∧ ig' = ig ∧
+      (on = false ∨ queued ≤ maximum ∨ db.checkCapability now h trustedS = .ok true) := by
+  unfold ownerDoPrivmsgFlood at hd
+  cases hc : checkIgnored db ig di now h with
+  | error e => simp [hc] at hd
+  | ok b =>
+    cases b with
+    | true => simp [hc] at hd
+    | false =>
+      simp only [hc] at hd
+      refine ⟨rfl, ?_⟩
+      unfold floodGuard at hd
+      by_cases hg : (on && decide (queued > maximum)) = true
+      · simp only [hg, if_true] at hd
+        cases ht : db.checkCapability now h trustedS with
+        | error e => simp [ht] at hd
+        | ok t =>
+          cases t with
+          | false => simp [ht] at hd
+          | true =>
+            simp only [ht, Prod.mk.injEq, true_and] at hd
+            exact ⟨hd.symm, Or.inr (Or.inr rfl)⟩
+      · simp only [hg, Bool.false_eq_true, if_false, Prod.mk.injEq, true_and] at hd
+        refine ⟨hd.symm, ?_⟩
+        simp only [Bool.and_eq_true, decide_eq_true_eq, not_and, Nat.not_lt] at hg
+        cases on with
+        | false => exact Or.inl rfl
+        | true => exact Or.inr (Or.inl (hg rfl))
+
+/-- a punished caller is then ignored for as long as the entry lives (when the ban mask matches the
+caller and the caller is neither registered-and-trusted nor otherwise exempt) -/
+theorem flood_punishment_ignores (ig : IgnoreDb) (bm h : Str) (t now' : Int)
+    (hm : glob bm h = true) (hlive : now' ≤ t) :
+    IgnoreDb.check { entries := ig.entries ++ [(bm, t)] } now' h = true := by
+  unfold IgnoreDb.check
+  simp only [List.any_append, List.any_cons, List.any_nil, Bool.or_false, Bool.or_eq_true]
+  right
+  simp only [ignoreLive, hm, Bool.and_true, Bool.not_eq_true', Bool.and_eq_false_iff, bne_eq_false_iff_eq,
+    decide_eq_false_iff_not, Int.not_lt]
+  right
+  omega
+
 /-! ## configuration writes -/
 
 /-- **config_write_guard**: `group.set(value)` is reached only for a name that is not read-only and
